@@ -106,11 +106,26 @@ def c12_blocks(rng, tier):
                 b.append("check %d" % rng.choice(watched))
             else:
                 b.append("check %d" % rng.choice(good))
-        if rng.random() < 0.8:
+        r = rng.random()
+        if r < 0.25:
+            # the instance goes first; a handle clone that outlived it keeps adding; then the handles go
+            b.append("dropinst")
+            for _ in range(rng.randint(1, 3)):
+                if rng.random() < 0.7:
+                    x = rng.choice(good + bad[:6]); b.append("hadd %d" % x)
+                    if x in good:
+                        watched.append(x)
+                else:
+                    b.append("check %d" % rng.choice(watched))
+            b.append("drophandles")
+            b.append("check %d" % rng.choice(watched))
+        elif r < 0.85:
             b.append("drop")
             b.append("check %d" % rng.choice(watched))
         b.append("usable")
         blocks.append(b)
+    blocks.append(["new only 10", "dropinst", "hadd 12", "drophandles", "check 12", "usable"])
+    blocks.append(["new raw 10", "dropinst", "hadd 12", "hadd 9", "hadd 14", "drophandles", "check 14", "usable"])
     # constructor failures
     for x in bad:
         blocks.append(["new only 10 12 %d" % x, "check 10", "usable"])
@@ -160,6 +175,9 @@ def monitor_c14(block, impl):
                 if not res.startswith(want) or any(c not in before for c in changed):
                     probs.append("`%s` (iterator front-end, %s): expected a catchable %s with nothing changed beyond the signals listed before it, got `%s`" % (
                         op, "forbidden signal %d" % n if n in FORBIDDEN else "number %d" % n, "panic" if want == "panic" else "error", res))
+                elif w[0] == "new" and "fds=" in res and not res.endswith("fds=+0"):
+                    probs.append("`%s` (iterator front-end, refused %s): the refusal must leave nothing behind, but descriptors stayed open (`%s`): a registration the constructor made before the refusal is still in the registry and keeps the instance's self-pipe alive" % (
+                        op, "forbidden signal %d" % n if n in FORBIDDEN else "number %d" % n, res))
                 break
         elif w[0] == "usable" and res != "usable true":
             probs.append("after `%s` the library is no longer usable: `%s`" % ("; ".join(ops), res))
@@ -173,10 +191,12 @@ def monitor_c12(block, impl):
         probs.append("the process was aborted or killed (%s) by: %s" % (ex, "; ".join(block)))
         return probs
     watched, alive, poisoned_by = set(), False, None
+    inst_gone = False
     for op, res in zip(block, impl):
         w = op.split()
         if w[0] == "new":
             nums = [int(x) for x in w[2:]]
+            inst_gone = False
             if res.startswith("ok"):
                 watched, alive = set(nums), True
             else:
@@ -204,9 +224,15 @@ def monitor_c12(block, impl):
         elif w[0] == "check":
             n = int(w[1])
             if res.startswith("flag="):
-                want = "[%d]" % n if (alive and n in watched) else "[]"
+                want = "[%d]" % n if (alive and n in watched and not inst_gone) else "[]"
                 if "yielded=%s" % want not in res or "flag=true" not in res:
                     probs.append("`%s`: expected flag=true yielded=%s%s, got `%s`" % (op, want, (" (after rejected `%s`)" % poisoned_by) if poisoned_by else "", res))
+        elif w[0] == "dropinst":
+            inst_gone = True
+        elif w[0] == "drophandles":
+            if not res.startswith("ok fds=+0"):
+                probs.append("the instance and then the last handle were dropped%s: every registration made through either must be gone and the pipe closed, got `%s`" % ((" after rejected `%s`" % poisoned_by) if poisoned_by else "", res))
+            alive, watched = False, set()
         elif w[0] == "drop":
             if not res.startswith("ok fds=+0"):
                 probs.append("dropping the instance and its handles%s: expected clean removal of its registrations and its pipe, got `%s`" % ((" after rejected `%s`" % poisoned_by) if poisoned_by else "", res))
